@@ -10,6 +10,7 @@ Status (see props/C20.json):
 -/
 import YouVerif.C20.Proofs
 import YouVerif.C20.ProofsWState
+import YouVerif.C20.ProofsS
 namespace YouVerif.C20.Props
 open YouVerif.C20
 
@@ -25,9 +26,11 @@ structure Inv (s : State) : Prop where
   /-- every pooled transaction has a (live) entry in the priced heap -/
   pricedCovers : ∀ t ∈ s.all, t ∈ s.priced
 
-/-- FULL STATEMENT (not proved; sampled by correspondence + the implementation-level oracle after every op):
-every operation preserves the invariant.  Missing: preservation lemmas for removeTx, promoteAccount,
-demoteAccount, the truncation loops and the reset path, and the global `all`/`priced` clauses. -/
+/-- FULL STATEMENT (not proved as a whole; sampled by correspondence + the implementation-level oracle after every op):
+every operation preserves the invariant.  PROVED parts: the structural clauses for every operation
+(`structure_invariant`, `structure_reachable`, `never_pending_and_queued`) and the shape clauses after the
+demotion run of every reset (`demote_establishes_shape`).  Still open: the shape / virtual-nonce clauses across the
+non-reset operations and the truncation steps, and the global `all` / `priced` clauses. -/
 def pool_invariant_statement : Prop := ∀ (s : State) (op : Op), Inv s → Inv (step s op).1
 
 /-- the limits in the form the code enforces them, after an operation that ends with a reorg run -/
@@ -85,6 +88,28 @@ theorem never_pending_and_queued (s : State) (h : AllW s) (a b : Nat) (t : Tx)
 /-- a transaction sits at most once in a list (strictly increasing nonces) -/
 theorem lists_have_unique_nonces (s : State) (h : AllW s) (a : Nat) :
     Sorted (s.acct a).pending.txs ∧ Sorted (s.acct a).queue.txs := ⟨(h a).pSorted, (h a).qSorted⟩
+
+/-! ## what every reset re-establishes (the path repaired by 971bb1a) -/
+
+/-- `demoteUnexecutables` run over all accounts (as `runReorg` does after every reset) leaves EVERY account in
+shape — pending gap-free from the state nonce, payable and within the block gas limit, every queued transaction above
+the pending run — starting from ANY state that satisfies the structural invariant (which every reachable state does,
+`structure_reachable`) and whose queues were forwarded to the state nonces (`Q1`, the effect of the promotion run that
+precedes it; assumed here, sampled by correspondence). Whatever the reorg, the reinjection and the promotion left in
+the lists, no gap and no unpayable transaction survives in pending. -/
+theorem demote_establishes_shape (s : State) (h : AllW s) (hQ : ∀ b, Q1 (s.acct b)) (ord : List Nat) (b : Nat) :
+    Shape ((s.demoteUnexecutables (normOrd s.n ord)).acct b) (s.demoteUnexecutables (normOrd s.n ord)).maxGas :=
+  demote_all_shape h hQ ord b
+
+/-- non-vacuity: the defect witness (state nonce lowered to 0, pending = [0, 2]) satisfies the hypotheses, and the
+repaired run leaves pending = [0], queue = [2]. -/
+example :
+    let s : State := { (init { accountSlots := 4, globalSlots := 16, accountQueue := 4, globalQueue := 16, priceBump := 10 } 1 100000 [(0, 1000)]) with
+      accts := [{ nonce := 0, balance := 1000, beat := 1, pending := { txs := [
+        { id := 2, sender := 0, nonce := 0, price := 1, gas := 1, value := 0, intr := 0, flags := 0 },
+        { id := 1, sender := 0, nonce := 2, price := 1, gas := 1, value := 0, intr := 0, flags := 0 }], costcap := 1, gascap := 1 } }] }
+    (((s.demoteUnexecutables (normOrd s.n [])).acct 0).pending.txs.map (·.id),
+     ((s.demoteUnexecutables (normOrd s.n [])).acct 0).queue.txs.map (·.id)) = ([2], [1]) := by decide
 
 /-! ## admission -/
 
